@@ -256,17 +256,9 @@ Theorem C06_progress_driver_woken_on_error :
     quiescent w -> woken w = true.
 Proof. exact (fun k w => parked_driver_woken gen_cfg k w gen_facts_ok). Qed.
 
-From H3V Require Import Gen.GenStreamFaults Spec.StreamScoped Model.StreamFaults Proofs.StreamFaultsLemmas Proofs.StreamFaultsProofs.
-
-(* every request whose peer script is a healthy message or a healthy prefix hit by one stream-scoped fault
-   (FIN early, RESET, STOP_SENDING, malformed message, oversized header ...) completes with a value or an error
-   once the peer's events have all arrived and its task is polled, whatever the other requests and the driver
-   did before, in any interleaving.  Proved by C07 over Model/StreamFaults.v. *)
-Theorem C06_progress_requests_complete :
-  forall l stops L G sched j c S,
-    in_class l -> Forall (action_ok stops L G) sched -> nth_error l j = Some (c, S) ->
-    exists r, nth_error (reqs (run (sched ++ completion j (length S)) (init_world l))) j = Some r /\ res r <> None.
-Proof. exact completes. Qed.
+(* The matching fact for whole requests - every request hit by one stream-scoped fault completes once its peer's
+   events have arrived, in any interleaving - is C07_completes (Properties/C07.v, Model/StreamFaults.v); it is not
+   re-exported here so that this file does not depend on C07's proof scripts. *)
 
 Print Assumptions C06_panic_sites_all_reviewed.
 Print Assumptions C06_panic_review_no_duplicate_rows.
@@ -297,7 +289,6 @@ Print Assumptions C06_no_panic_accept_recv.
 Print Assumptions C06_no_panic_receive_path_composed.
 Print Assumptions C06_progress_accept_recv.
 Print Assumptions C06_progress_driver_woken_on_error.
-Print Assumptions C06_progress_requests_complete.
 Print Assumptions C06_progress_frame_stream_next.
 Print Assumptions C06_progress_frame_stream_data.
 Print Assumptions C06_progress_frame_stream_all_histories.
